@@ -53,6 +53,10 @@ def csys1():
     return qobjs.csys("qubit", 1)
 
 
+# the two thresholds of a case are deliberately different (a stored setting that confuses them re-estimates differently)
+EPS_PROJ, EPS_TRUNC = 1e-6, 1e-10
+
+
 def make_setting(kind="state", noise="depolarized", n_sample=2, n_rep=2, num_data=(20,), cases=("lin", "lsq"),
                  seed_qoperation=888, seed_data=777, rate=0.1):
     """EstimatorTestSetting for 1-qubit tomography of `kind` with the listed estimator cases."""
@@ -104,8 +108,8 @@ def make_setting(kind="state", noise="depolarized", n_sample=2, n_rep=2, num_dat
         true_object=NoiseSetting(qoperation_base=true, method=method, para=para),
         tester_objects=[NoiseSetting(qoperation_base=t, method=method, para=para) for t in testers],
         seed_qoperation=seed_qoperation, seed_data=seed_data, n_sample=n_sample, n_rep=n_rep, num_data=list(num_data),
-        schedules="all", case_names=list(cases), estimators=est, eps_proj_physical_list=[1e-5] * n,
-        eps_truncate_imaginary_part_list=[1e-5] * n, algo_list=algo, loss_list=loss, parametrizations=para_flags, c_sys=c)
+        schedules="all", case_names=list(cases), estimators=est, eps_proj_physical_list=[EPS_PROJ] * n,
+        eps_truncate_imaginary_part_list=[EPS_TRUNC] * n, algo_list=algo, loss_list=loss, parametrizations=para_flags, c_sys=c)
 
 
 NO_CHECKS = {"consistency": False, "mse_of_estimators": False, "mse_of_empi_dists": False, "physicality_violation": False}
